@@ -29,6 +29,37 @@ claim('C13', 'proof',
       '(all denominators non-zero for every real r), satisfies psi(1)=1, 0<=psi<=min(2r,4) for r>0, vanishes for r<=0 where defined by '
       'clipping, acts elementwise on 0-3-D arrays; the TVD correction has no vanishing denominator for any field on all 9 grid classes.',
       'DESIGN.md 2/C13')
+
+claim('C03', 'proof',
+      'Bounded proof: after construction, apply_BCs, solvePDE (solver stub) and solveExplicitPDE the ghost values the real code stores satisfy '
+      'a*(difference quotient incl. 1/r, 1/(r sin theta)) + b*(face average) = c face by face for fully symbolic face-wise (a,b,c), wrap exactly '
+      'on the axes declared periodic and only there (every subset of admissible axes, either side flag); boundary rows of '
+      'boundaryConditionsTerm have zero residual on the reported array and are the rows handed to the solver; plot profile entries are the '
+      'face averages; (lam a, lam b, lam c) leaves ghosts unchanged and scales rows by lam. Known finding: periodic axis with unequal end cells.',
+      'DESIGN.md 2/C03')
+claim('C04', 'proof',
+      'Bounded proof: the (M, RHS) the real solvePDE hands to the solver equals Mbc + sum(+-lam M_k), RHSbc + sum(+-lam v_k) entry by entry for '
+      'term lists drawn from a grammar (matrix/vector/pair, negated, scaled, permuted, duplicated, empty); the same object is returned with the '
+      'solver vector stored and ghosts re-imposed; terms touch interior rows only; M is free of source/BC-data/old-value symbols and RHS is '
+      'affine in them; scipy-spsolve path, externalsolver path and solveMatrixPDE receive the identical system.',
+      'DESIGN.md 2/C04')
+claim('C11', 'proof',
+      'Bounded proof: linear/arithmetic/geometric/harmonic means lie between the adjacent cell values for positive data, reproduce constants, '
+      'H <= G <= A with the same width weights (exp/log uninterpreted with listed true axiom instances), linearMean is exact for linear fields on '
+      'non-uniform faces, upwindMean returns donor / boundary / average values per velocity sign, every face value mentions only the two adjacent '
+      'cells, values with exact zeros are finite (1-D loop variants explored path by path) and 2-D/3-D agree with 1-D on grid lines.',
+      'DESIGN.md 2/C11')
+claim('C12', 'proof',
+      'Bounded proof: interior rows of the system solvePDE assembles with transientTerm equal alpha (x-old)/dt + (S x - s) for scalar and per-cell '
+      'alpha and symbolic dt (hence steady solutions are fixed points; dt*row is polynomial in dt); solveExplicitPDE gives old + dt*RHS with ghosts '
+      're-imposed, leaves its input untouched and its result is usable by solvePDE; implicit minus explicit step equals -(dt/alpha) A (x-old).',
+      'DESIGN.md 2/C12')
+claim('C17', 'proof',
+      'Bounded proof: with lengths x L, time x T, field x K (symbolic positive) every entry of every builder scales by exactly 1/T, every vector '
+      'term by K/T, boundary rows are unchanged with RHS x K, ghosts x K, volumes x L^d; TVD correction scales by K/T (cube-split) under the '
+      'stated threshold assumption; every builder is linear in its coefficient (scale, add per face) and separable per face on the fully '
+      'symbolic field (the lemma the face-basis checks rely on). Known finding: _fsign absolute threshold.',
+      'DESIGN.md 2/C17')
 _todo = 'check under construction in this session (engine present; obligation family not landed yet)'
 for _p in ['C01','C02','C03','C04','C05','C06','C07','C08','C09','C11','C12','C13','C14','C15','C16','C17']:
     if _p not in CHECKS:
